@@ -52,6 +52,23 @@ def targetsAll : Changes → List FId
   | .cons c cs => targets c ++ targetsAll cs
 end
 
+mutual
+/-- the change has no element at all (empty lists, merges of such) -/
+def elementFree : Change → Bool
+  | .addFeatures fs => fs.isEmpty
+  | .addTags ts => ts.isEmpty
+  | .removeTags ts => ts.isEmpty
+  | .merged cs => elementFreeAll cs
+def elementFreeAll : Changes → Bool
+  | .nil => true
+  | .cons c cs => elementFree c && elementFreeAll cs
+end
+
+/-- the reference for a world of the given kind: a read-only world (`ro`) rejects every element, so only a
+change without elements "applies" (and changes nothing); a mutable world follows `specApply` -/
+def specApplyR (ro : Bool) (w : World) (c : Change) : Option World :=
+  if ro then (if elementFree c then some w else none) else specApply w c
+
 /-- same set of IDs -/
 def SameIds (xs ys : List FId) : Prop := ∀ id, id ∈ xs ↔ id ∈ ys
 
